@@ -717,13 +717,35 @@ func exec(line string) (res h.Result) {
 	return
 }
 
+var (
+	rtMemoKey  string
+	rtMemoPub  *share.PubPoly
+	rtMemoEval map[int]*share.PubShare
+	rtMemoChk  map[int][2]bool
+)
+
 // rt <poly> <beta> <n> <selectors>: the property end to end on shares the LIBRARY dealt.
 func execRT(w []string) (res h.Result) {
 	p, beta, n := parsePoly(w[1]), h.BigDec(w[2]), h.Atoi(w[3])
 	g, t := p.g, len(p.c)
 	pri := p.pri()
 	dealt := pri.Shares(n)
-	pub := pri.Commit(g.pt(beta))
+	// the exhaustive stream asks for the same (polynomial, base) under every subset: the library's
+	// Commit / Eval / Check answers for it are computed once per process and reused
+	ck := w[1] + "/" + w[2]
+	if rtMemoKey != ck {
+		rtMemoKey, rtMemoPub = ck, pri.Commit(g.pt(beta))
+		rtMemoEval, rtMemoChk = map[int]*share.PubShare{}, map[int][2]bool{}
+	}
+	pub := rtMemoPub
+	pubEval := func(i int) *share.PubShare {
+		if e, ok := rtMemoEval[i]; ok {
+			return &share.PubShare{I: e.I, V: e.V.Clone()}
+		}
+		e := pub.Eval(i)
+		rtMemoEval[i] = &share.PubShare{I: e.I, V: e.V.Clone()}
+		return e
+	}
 	var sels []string
 	if w[4] != "-" {
 		sels = strings.Split(w[4], ",")
@@ -750,7 +772,7 @@ func execRT(w []string) (res h.Result) {
 		case strings.HasPrefix(s, "x"):
 			i := h.Atoi(s[1:])
 			chosen = append(chosen, &share.PriShare{I: i, V: g.sc(big.NewInt(1))})
-			pubs = append(pubs, &share.PubShare{I: i, V: pub.Eval(i).V})
+			pubs = append(pubs, &share.PubShare{I: i, V: pubEval(i).V})
 			sh = append(sh, shr{i: int64(i), v: big.NewInt(1)})
 			if pub.Check(chosen[len(chosen)-1]) {
 				chk += "1"
@@ -764,17 +786,22 @@ func execRT(w []string) (res h.Result) {
 				plain = false
 			}
 			chosen = append(chosen, dealt[i])
-			pubs = append(pubs, pub.Eval(i))
+			pubs = append(pubs, pubEval(i))
 			sh = append(sh, shr{i: int64(i), v: refEval(p.c, xOfIdx(int64(i), g.q), g.q)})
-			if pub.Check(dealt[i]) {
+			cr, ok := rtMemoChk[i]
+			if !ok {
+				// exactly the true value checks; a neighbouring value must not
+				bad := &share.PriShare{I: i, V: g.g.Scalar().Add(dealt[i].V, g.sc(big.NewInt(1)))}
+				cr = [2]bool{pub.Check(dealt[i]), pub.Check(bad)}
+				rtMemoChk[i] = cr
+			}
+			if cr[0] {
 				chk += "1"
 			} else {
 				chk += "0"
 				orc = append(orc, fmt.Sprintf("rt-true-share-rejected: index %d", i))
 			}
-			// and exactly the true value: a neighbouring value must not check
-			bad := &share.PriShare{I: i, V: g.g.Scalar().Add(dealt[i].V, g.sc(big.NewInt(1)))}
-			if pub.Check(bad) {
+			if cr[1] {
 				orc = append(orc, fmt.Sprintf("rt-wrong-share-accepted: index %d", i))
 			}
 		}
